@@ -220,6 +220,9 @@ class BitStringPayloadDecoder(AbstractSimplePayloadDecoder):
                 if isinstance(component, SubstrateUnderrunError):
                     yield component
 
+            if not component:
+                raise error.PyAsn1Error('Empty BIT STRING fragment')
+
             trailingBits = oct2int(component[0])
             if trailingBits > 7:
                 raise error.PyAsn1Error(
@@ -265,6 +268,9 @@ class BitStringPayloadDecoder(AbstractSimplePayloadDecoder):
 
             if component is eoo.endOfOctets:
                 break
+
+            if not component:
+                raise error.PyAsn1Error('Empty BIT STRING fragment')
 
             trailingBits = oct2int(component[0])
             if trailingBits > 7:
